@@ -1,12 +1,1169 @@
-//! C12 - not implemented yet
-use crate::common::Report;
+//! C12 - contexts survive serialization; malformed input is an error, not a crash.
+//!
+//! Half A (round trip): a corpus of contexts built with the real API (plain with names / every
+//! annotation kind / 128-bit constants / Call+Iterate / every operation variant, every public
+//! custom operation before and after instantiation, inlined in every mode, optimized, MPC-compiled
+//! for several owner/output configurations). Oracle per context: to_string twice gives the same
+//! text; from_str is Ok; contexts_deep_equal; an independent getter-based comparison incl. node
+//! types; re-serialization of the reloaded context gives the original text; the reloaded context is
+//! well-formed; evaluation on an input alphabet with the same evaluator seed gives the same result.
+//!
+//! Half B (malformed input, E5): for 6 seed contexts (+ Value and TypedValue seeds) every prefix,
+//! every single-byte deletion and every single-byte substitution from a 14-symbol alphabet of the
+//! envelope text, and every structural mutation of the decoded JSON tree (envelope, inner payload and
+//! the nested envelopes of constants). Oracle: from_str under catch is Err, or Ok(c) with c
+//! well-formed, round-tripping and evaluable without panic. A panic is a violation, one signature
+//! per panic site. Mutants that replace a number by a value >= 2^31 are executed in a child process
+//! (this binary in --replay mode under `ulimit -v`), because the library may try to allocate that
+//! much and an allocation failure aborts the process; a child that dies is a violation.
+//!
+//! Development switches (stderr only, never needed for a verdict): C12_DEBUG=1 progress lines,
+//! C12_HALF=A|B run one half, C12_SEED=<name> one half-B seed, C12_TRACE=1 one line per case.
+use crate::common::{catch, stable_msg, Report};
+use crate::exec::first_line;
+use ciphercore_base::data_values::Value;
+use ciphercore_base::graphs::{contexts_deep_equal, Context};
+use ciphercore_base::typed_value::TypedValue;
+use rayon::prelude::*;
+use serde_json::{json, Value as J};
+use std::collections::BTreeMap;
 
-pub fn run(_r: &Report) -> i32 {
-    println!("MACHINERY-ERROR property=C12 check not implemented");
-    2
+mod corpus;
+mod mutate;
+mod seeds;
+mod wf;
+
+/// evaluation of accepted mutants is attempted only below this many value bits
+const EVAL_BITS_LIMIT: u64 = 1 << 16;
+
+#[derive(Clone, Debug)]
+struct Viol {
+    sig: String,
+    what: String,
 }
 
-pub fn replay(_r: &Report, _rec: &serde_json::Value) -> i32 {
-    println!("MACHINERY-ERROR property=C12 replay not implemented");
-    2
+#[derive(Clone, Debug, Default)]
+struct Outcome {
+    /// "err" | "ok" | "violation"
+    class: &'static str,
+    viol: Option<Viol>,
+    evaluated: bool,
+    eval_ok: bool,
+    eval_skipped_large: bool,
+    /// accepted context differs structurally from the seed (the mutation was not a no-op)
+    accepted_differs: bool,
+}
+
+// ------------------------------------------------------------------------------------------------
+// signatures
+
+/// "msg at file:line" -> (msg, shortened file). Line numbers are dropped (unstable under edits).
+fn split_panic(msg: &str) -> (String, String) {
+    let first = msg.lines().next().unwrap_or("");
+    // multi-line panic messages: the location is at the very end
+    let (text, loc) = match msg.rfind(" at ") {
+        Some(i) => (&msg[..i], &msg[i + 4..]),
+        None => (first, ""),
+    };
+    let file = loc.rsplitn(2, ':').last().unwrap_or("");
+    let file = if let Some(i) = file.find("ciphercore-base/src/") {
+        file[i + "ciphercore-base/src/".len()..].to_string()
+    } else {
+        let parts: Vec<&str> = file.split('/').collect();
+        let n = parts.len();
+        parts[n.saturating_sub(3)..].join("/")
+    };
+    (text.lines().next().unwrap_or("").to_string(), file)
+}
+
+/// One signature per panic site. The panic location's line number is not used; sites in the same file
+/// with the same message are told apart by the payload table the mutation touched (`locus`). The
+/// `expect` on the inner payload is a single site whatever was mutated, so it carries no locus.
+fn panic_sig(target: &str, stage: &str, locus: &str, msg: &str) -> String {
+    let (text, file) = split_panic(msg);
+    if let Some(i) = text.find(": Error(") {
+        // the nested Value envelope of a constant fails at the same site as a top-level Value
+        let target = if text.contains("SerializableValue") { "Value" } else { target };
+        return format!("C12:{}:{}:{}@{}", target, stage, stable_msg(&text[..i]), file);
+    }
+    let l = if locus.is_empty() { String::new() } else { format!("{}:", locus) };
+    format!("C12:{}:{}:{}{}@{}", target, stage, l, stable_msg(&text), file)
+}
+
+fn inner_tree(text: &str) -> Option<J> {
+    let outer: J = serde_json::from_str(text).ok()?;
+    serde_json::from_str(outer.get("data")?.as_str()?).ok()
+}
+
+/// which top-level table of the payload differs from the seed's
+fn locus_of(text: &str, seed_text: &str) -> String {
+    match (inner_tree(seed_text), inner_tree(text)) {
+        (Some(a), Some(b)) => mutate::first_diff_key(&a, &b),
+        _ => String::new(),
+    }
+}
+
+// ------------------------------------------------------------------------------------------------
+// oracles for one candidate text
+
+/// the envelope of an ACCEPTED text must carry the current data version (2): anything else the
+/// library documents as "version doesn't match the requirement"
+fn wrong_version_accepted(text: &str) -> Option<String> {
+    let outer: J = serde_json::from_str(text).ok()?;
+    let v = outer.as_object()?.get("version")?;
+    let shown = v.to_string();
+    if shown == "2" {
+        None
+    } else {
+        Some(shown)
+    }
+}
+
+fn check_context_text(text: &str, seed_text: &str, seed: Option<&Context>) -> Outcome {
+    let mut o = Outcome::default();
+    let r = catch(|| serde_json::from_str::<Context>(text));
+    let c = match r {
+        Err(p) => {
+            let locus = locus_of(text, seed_text);
+            o.class = "violation";
+            o.viol = Some(Viol {
+                sig: panic_sig("Context", "panic", &locus, &p),
+                what: format!("Context deserialization panics: {}", first_line(&p)),
+            });
+            return o;
+        }
+        Ok(Err(_)) => {
+            o.class = "err";
+            return o;
+        }
+        Ok(Ok(c)) => c,
+    };
+    o.class = "ok";
+    let fail = |o: &mut Outcome, sig: String, what: String| {
+        o.class = "violation";
+        o.viol = Some(Viol { sig, what });
+    };
+    if let Some(v) = wrong_version_accepted(text) {
+        fail(&mut o, "C12:Context:accepted-wrong-version".into(), format!("a context envelope with version {} is accepted (only version 2 is valid)", v));
+        return o;
+    }
+    // the accepted context must serialize
+    let s = match catch(|| serde_json::to_string(&c)) {
+        Ok(Ok(s)) => s,
+        Ok(Err(e)) => {
+            fail(&mut o, "C12:Context:accepted:serialize-error".into(), format!("accepted context cannot be serialized: {}", e));
+            return o;
+        }
+        Err(p) => {
+            fail(&mut o, panic_sig("Context", "accepted:serialize-panic", "", &p), format!("serializing an accepted context panics: {}", first_line(&p)));
+            return o;
+        }
+    };
+    match catch(|| wf::well_formed(&c, &s)) {
+        Ok(Ok(())) => {}
+        Ok(Err(why)) => {
+            fail(&mut o, format!("C12:Context:accepted-ill-formed:{}", stable_msg(&why)), format!("from_str returned Ok for an ill-formed context: {}", why));
+            return o;
+        }
+        Err(p) => {
+            fail(&mut o, panic_sig("Context", "accepted:getter-panic", "", &p), format!("a getter panics on an accepted context: {}", first_line(&p)));
+            return o;
+        }
+    }
+    // it must round-trip
+    match catch(|| serde_json::from_str::<Context>(&s)) {
+        Ok(Ok(c2)) => {
+            let same = catch(|| {
+                if !contexts_deep_equal(&c, &c2) {
+                    return Err("contexts_deep_equal is false".to_string());
+                }
+                wf::same_structure(&c, &c2).map_err(|e| format!("{}: {}", e.0, e.1))?;
+                let s2 = serde_json::to_string(&c2).map_err(|e| e.to_string())?;
+                if s2 != s {
+                    return Err("re-serialization differs".to_string());
+                }
+                Ok(())
+            });
+            match same {
+                Ok(Ok(())) => {}
+                Ok(Err(why)) => {
+                    fail(&mut o, format!("C12:Context:accepted:roundtrip-differs:{}", stable_msg(&why)), format!("an accepted context does not round-trip: {}", why));
+                    return o;
+                }
+                Err(p) => {
+                    fail(&mut o, panic_sig("Context", "accepted:roundtrip-panic", "", &p), format!("round trip of an accepted context panics: {}", first_line(&p)));
+                    return o;
+                }
+            }
+        }
+        Ok(Err(e)) => {
+            fail(&mut o, "C12:Context:accepted:roundtrip-rejected".into(), format!("the serialization of an accepted context is rejected: {}", first_line(&e.to_string())));
+            return o;
+        }
+        Err(p) => {
+            fail(&mut o, panic_sig("Context", "accepted:roundtrip-panic", "", &p), format!("round trip of an accepted context panics: {}", first_line(&p)));
+            return o;
+        }
+    }
+    if let Some(sc) = seed {
+        o.accepted_differs = catch(|| wf::same_structure(sc, &c).is_err()).unwrap_or(true);
+    }
+    // it can be evaluated (Ok or Err), never a panic
+    if c.check_finalized().is_ok() && c.get_main_graph().is_ok() {
+        match catch(|| wf::eval_cost_bits(&c)) {
+            Ok(Some(bits)) if bits <= EVAL_BITS_LIMIT => {
+                let types = wf::main_input_types(&c).unwrap_or_default();
+                let ins = catch(|| wf::input_alphabet(&types, 0, 0).swap_remove(2));
+                if let Ok(ins) = ins {
+                    o.evaluated = true;
+                    match wf::evaluate(&c, &ins, 0) {
+                        Ok(_) => o.eval_ok = true,
+                        Err(m) if m.starts_with("panic: ") => {
+                            let locus = locus_of(text, seed_text);
+                            fail(
+                                &mut o,
+                                panic_sig("Context", "accepted:eval-panic", &locus, &m[7..]),
+                                format!("evaluating an accepted (well-formed) context panics: {}", first_line(&m)),
+                            );
+                            return o;
+                        }
+                        Err(_) => {}
+                    }
+                }
+            }
+            _ => o.eval_skipped_large = true,
+        }
+    }
+    o
+}
+
+fn check_value_text(text: &str) -> Outcome {
+    let mut o = Outcome::default();
+    let v = match catch(|| serde_json::from_str::<Value>(text)) {
+        Err(p) => {
+            o.class = "violation";
+            o.viol = Some(Viol {
+                sig: panic_sig("Value", "panic", "", &p),
+                what: format!("Value deserialization panics: {}", first_line(&p)),
+            });
+            return o;
+        }
+        Ok(Err(_)) => {
+            o.class = "err";
+            return o;
+        }
+        Ok(Ok(v)) => v,
+    };
+    o.class = "ok";
+    if let Some(ver) = wrong_version_accepted(text) {
+        o.class = "violation";
+        o.viol = Some(Viol {
+            sig: "C12:Value:accepted-wrong-version".into(),
+            what: format!("a value envelope with version {} is accepted (only version 2 is valid)", ver),
+        });
+        return o;
+    }
+    let rt = catch(|| {
+        let s = serde_json::to_string(&v).map_err(|e| e.to_string())?;
+        let v2: Value = serde_json::from_str(&s).map_err(|e| format!("rejected: {}", e))?;
+        if v2 != v {
+            return Err("reloaded value differs".to_string());
+        }
+        if serde_json::to_string(&v2).map_err(|e| e.to_string())? != s {
+            return Err("re-serialization differs".to_string());
+        }
+        Ok(())
+    });
+    match rt {
+        Ok(Ok(())) => {}
+        Ok(Err(why)) => {
+            o.class = "violation";
+            o.viol = Some(Viol {
+                sig: format!("C12:Value:accepted:roundtrip:{}", stable_msg(&why)),
+                what: format!("an accepted Value does not round-trip: {}", why),
+            });
+        }
+        Err(p) => {
+            o.class = "violation";
+            o.viol = Some(Viol {
+                sig: panic_sig("Value", "accepted:roundtrip-panic", "", &p),
+                what: format!("round trip of an accepted Value panics: {}", first_line(&p)),
+            });
+        }
+    }
+    o
+}
+
+fn check_typed_value_text(text: &str) -> Outcome {
+    let mut o = Outcome::default();
+    let tv = match catch(|| serde_json::from_str::<TypedValue>(text)) {
+        Err(p) => {
+            o.class = "violation";
+            o.viol = Some(Viol {
+                sig: panic_sig("TypedValue", "panic", "", &p),
+                what: format!("TypedValue deserialization panics: {}", first_line(&p)),
+            });
+            return o;
+        }
+        Ok(Err(_)) => {
+            o.class = "err";
+            return o;
+        }
+        Ok(Ok(v)) => v,
+    };
+    o.class = "ok";
+    let rt = catch(|| {
+        if !tv.t.is_valid() {
+            return Err("type is invalid".to_string());
+        }
+        if !wf::value_fits(&tv.value, &tv.t) {
+            return Err("value does not fit the type".to_string());
+        }
+        let s = serde_json::to_string(&tv).map_err(|e| format!("cannot be serialized: {}", first_line(&e.to_string())))?;
+        let tv2: TypedValue = serde_json::from_str(&s).map_err(|e| format!("rejected: {}", first_line(&e.to_string())))?;
+        if tv2.t != tv.t || tv2.value != tv.value {
+            return Err("reloaded typed value differs".to_string());
+        }
+        if serde_json::to_string(&tv2).map_err(|e| e.to_string())? != s {
+            return Err("re-serialization differs".to_string());
+        }
+        Ok(())
+    });
+    match rt {
+        Ok(Ok(())) => {}
+        Ok(Err(why)) => {
+            o.class = "violation";
+            o.viol = Some(Viol {
+                sig: format!("C12:TypedValue:accepted:{}", stable_msg(&why)),
+                what: format!("an accepted TypedValue is ill-formed or does not round-trip: {}", why),
+            });
+        }
+        Err(p) => {
+            o.class = "violation";
+            o.viol = Some(Viol {
+                sig: panic_sig("TypedValue", "accepted:panic", "", &p),
+                what: format!("handling an accepted TypedValue panics: {}", first_line(&p)),
+            });
+        }
+    }
+    o
+}
+
+fn check_text(target: &str, text: &str, seed_text: &str, seed: Option<&Context>) -> Outcome {
+    match target {
+        "Context" => check_context_text(text, seed_text, seed),
+        "Value" => check_value_text(text),
+        _ => check_typed_value_text(text),
+    }
+}
+
+// ------------------------------------------------------------------------------------------------
+// sandbox: risky cases run in a child process (this binary in --replay mode) under `ulimit -v`
+
+const SANDBOX_KB: u64 = 192 << 10; // 192 MiB of address space
+const SANDBOX_TIMEOUT_S: u64 = 120;
+
+fn outcome_to_json(o: &Outcome) -> J {
+    json!({"class": o.class, "sig": o.viol.as_ref().map(|v| v.sig.clone()), "what": o.viol.as_ref().map(|v| v.what.clone()),
+           "evaluated": o.evaluated, "eval_ok": o.eval_ok, "eval_skipped_large": o.eval_skipped_large, "accepted_differs": o.accepted_differs})
+}
+
+fn outcome_from_json(j: &J) -> Outcome {
+    let class = match j["class"].as_str() {
+        Some("err") => "err",
+        Some("ok") => "ok",
+        _ => "violation",
+    };
+    let viol = j["sig"].as_str().map(|s| Viol { sig: s.to_string(), what: j["what"].as_str().unwrap_or("").to_string() });
+    Outcome {
+        class,
+        viol,
+        evaluated: j["evaluated"].as_bool().unwrap_or(false),
+        eval_ok: j["eval_ok"].as_bool().unwrap_or(false),
+        eval_skipped_large: j["eval_skipped_large"].as_bool().unwrap_or(false),
+        accepted_differs: j["accepted_differs"].as_bool().unwrap_or(false),
+    }
+}
+
+/// child side: processes texts[start..] of the batch file, one flushed line per finished case
+fn sandbox_child(case: &J) -> i32 {
+    use std::io::Write;
+    let file = case["file"].as_str().unwrap_or("");
+    let start = case["start"].as_u64().unwrap_or(0) as usize;
+    let batch: J = match std::fs::read_to_string(file).ok().and_then(|t| serde_json::from_str(&t).ok()) {
+        Some(b) => b,
+        None => return 2,
+    };
+    let target = batch["target"].as_str().unwrap_or("Context").to_string();
+    let seed_text = batch["seed_text"].as_str().unwrap_or("").to_string();
+    let seed_ctx: Option<Context> = if target == "Context" { serde_json::from_str(&seed_text).ok() } else { None };
+    let texts = batch["texts"].as_array().cloned().unwrap_or_default();
+    let out = std::io::stdout();
+    for (i, t) in texts.iter().enumerate().skip(start) {
+        let o = check_text(&target, t.as_str().unwrap_or(""), &seed_text, seed_ctx.as_ref());
+        let mut l = out.lock();
+        let _ = writeln!(l, "SB {} {}", i, outcome_to_json(&o));
+        let _ = l.flush();
+    }
+    0
+}
+
+/// parent side: outcomes of all texts; a case the child dies on becomes a violation
+fn sandbox_run(target: &str, seed_text: &str, texts: &[String], fields: &[String], tag: &str) -> Result<(Vec<Outcome>, u64), String> {
+    let dir = std::env::temp_dir();
+    let base = format!("c12-sandbox-{}-{}", std::process::id(), tag);
+    let batch_file = dir.join(format!("{}.batch.json", base));
+    let rec_file = dir.join(format!("{}.rec.json", base));
+    std::fs::write(&batch_file, serde_json::to_string(&json!({"target": target, "seed_text": seed_text, "texts": texts})).unwrap())
+        .map_err(|e| e.to_string())?;
+    let exe = std::env::current_exe().map_err(|e| e.to_string())?;
+    let mut outcomes: Vec<Outcome> = vec![];
+    let mut children = 0u64;
+    while outcomes.len() < texts.len() {
+        let start = outcomes.len();
+        std::fs::write(&rec_file, serde_json::to_string(&json!({"signature": "", "case": {"half": "sandbox", "file": batch_file, "start": start}})).unwrap())
+            .map_err(|e| e.to_string())?;
+        let script = format!("ulimit -v {}; exec timeout {} \"$0\" C12 --replay \"$1\"", SANDBOX_KB, SANDBOX_TIMEOUT_S);
+        let out = std::process::Command::new("sh")
+            .arg("-c")
+            .arg(&script)
+            .arg(&exe)
+            .arg(&rec_file)
+            .env("VERIF_THREADS", "1")
+            .env_remove("C12_TRACE")
+            .output()
+            .map_err(|e| format!("cannot start the sandbox child: {}", e))?;
+        children += 1;
+        let stdout = String::from_utf8_lossy(&out.stdout);
+        let mut got = 0;
+        for line in stdout.lines() {
+            if let Some(rest) = line.strip_prefix("SB ") {
+                let mut it = rest.splitn(2, ' ');
+                let idx: usize = it.next().and_then(|x| x.parse().ok()).ok_or("bad sandbox line")?;
+                let j: J = serde_json::from_str(it.next().unwrap_or("")).map_err(|e| e.to_string())?;
+                if idx != outcomes.len() {
+                    return Err("sandbox child answered out of order".into());
+                }
+                outcomes.push(outcome_from_json(&j));
+                got += 1;
+            }
+        }
+        if outcomes.len() < texts.len() {
+            // the child died while working on case `outcomes.len()`
+            let i = outcomes.len();
+            let code = out.status.code();
+            let stderr = String::from_utf8_lossy(&out.stderr);
+            let last = stderr
+                .lines()
+                .find(|l| l.contains("memory allocation of"))
+                .or_else(|| stderr.lines().filter(|l| !l.trim().is_empty()).last())
+                .unwrap_or("")
+                .to_string();
+            if got == 0 && start == i && code == Some(2) && last.is_empty() {
+                return Err("sandbox child could not read its batch".into());
+            }
+            let how = if code == Some(124) {
+                "timeout".to_string()
+            } else if last.contains("memory allocation") {
+                "memory exhausted".to_string()
+            } else {
+                format!("died with {}", code.map(|c| format!("exit code {}", c)).unwrap_or_else(|| "a signal".into()))
+            };
+            outcomes.push(Outcome {
+                class: "violation",
+                viol: Some(Viol {
+                    // one signature whatever the way of dying (it depends on the machine's load and memory)
+                    sig: format!("C12:{}:abort:number@{}", target, fields[i]),
+                    what: format!(
+                        "{} deserialization kills the process ({}; address space limited to {} MiB, {} s): {}",
+                        target,
+                        how,
+                        SANDBOX_KB >> 10,
+                        SANDBOX_TIMEOUT_S,
+                        first_line(&last)
+                    ),
+                }),
+                ..Default::default()
+            });
+        }
+    }
+    let _ = std::fs::remove_file(&batch_file);
+    let _ = std::fs::remove_file(&rec_file);
+    Ok((outcomes, children))
+}
+
+// ------------------------------------------------------------------------------------------------
+// half B driver
+
+enum Mutn {
+    Text(mutate::TextMut),
+    Tree(mutate::TreeMut),
+}
+
+struct Case {
+    class: String,
+    desc: String,
+    mutn: Mutn,
+    /// a number was replaced by a value >= 2^31: executed in a memory-limited child process, because
+    /// the library may try to allocate that much (an abort cannot be caught in-process)
+    risky: bool,
+    /// last named component of the mutated path (for the signature of a crash)
+    field: String,
+}
+
+impl Case {
+    /// the mutated text (built on demand)
+    fn text(&self, seed_text: &str, seed_tree: &J) -> String {
+        match &self.mutn {
+            Mutn::Text(m) => String::from_utf8(m.apply(seed_text.as_bytes())).expect("ASCII"),
+            Mutn::Tree(tm) => serde_json::to_string(&tm.apply(seed_tree)).expect("tree serializes"),
+        }
+    }
+}
+
+fn all_cases(seed_text: &str, seed_tree: &J, small: u64) -> Result<Vec<Case>, String> {
+    let bytes = seed_text.as_bytes();
+    if !seed_text.is_ascii() {
+        return Err("seed serialization is not ASCII".into());
+    }
+    let mut cases = vec![];
+    for m in mutate::text_mutations(bytes.len()) {
+        if let mutate::TextMut::Subst(i, b) = &m {
+            if bytes[*i] == *b {
+                continue;
+            }
+        }
+        cases.push(Case { class: format!("text:{}", m.class()), desc: m.describe(), mutn: Mutn::Text(m), risky: false, field: String::new() });
+    }
+    for tm in mutate::tree_mutations(seed_tree, small) {
+        let risky = tm.class == "number" && tm.detail.parse::<u128>().map(|x| x >= (1u128 << 31)).unwrap_or(false);
+        let field = tm
+            .path
+            .split('/')
+            .filter(|c| !c.is_empty() && !c.chars().all(|ch| ch.is_ascii_digit()) && *c != "<json>")
+            .last()
+            .unwrap_or("")
+            .to_string();
+        cases.push(Case {
+            class: format!("tree:{}", tm.class),
+            desc: format!("{} at {} -> {}", tm.class, tm.path, tm.detail),
+            mutn: Mutn::Tree(tm),
+            risky,
+            field,
+        });
+    }
+    Ok(cases)
+}
+
+fn run_half_b(r: &Report) -> Result<(), String> {
+    struct Seed {
+        target: &'static str,
+        name: String,
+        text: String,
+        small: u64,
+    }
+    let mut seeds_v: Vec<Seed> = vec![];
+    for (n, c) in seeds::context_seeds() {
+        let text = serde_json::to_string(&c).map_err(|e| e.to_string())?;
+        let small = c.get_graphs().iter().map(|g| g.get_num_nodes()).max().unwrap_or(0).max(c.get_num_graphs()) + 1;
+        seeds_v.push(Seed { target: "Context", name: n.to_string(), text, small });
+    }
+    if r.tier.thorough() {
+        for (n, c) in seeds::thorough_context_seeds()? {
+            let text = serde_json::to_string(&c).map_err(|e| e.to_string())?;
+            let small = c.get_graphs().iter().map(|g| g.get_num_nodes()).max().unwrap_or(0).max(c.get_num_graphs()) + 1;
+            seeds_v.push(Seed { target: "Context", name: n, text, small });
+        }
+    }
+    for (n, v) in seeds::value_seeds() {
+        seeds_v.push(Seed { target: "Value", name: n.to_string(), text: serde_json::to_string(&v).map_err(|e| e.to_string())?, small: 2 });
+    }
+    for (n, v) in seeds::typed_value_seeds() {
+        seeds_v.push(Seed { target: "TypedValue", name: n.to_string(), text: serde_json::to_string(&v).map_err(|e| e.to_string())?, small: 2 });
+    }
+    let only_seed = std::env::var("C12_SEED").ok();
+    let mut seen_sigs: std::collections::BTreeSet<String> = std::collections::BTreeSet::new();
+    for sd in seeds_v.iter() {
+        if let Some(o) = &only_seed {
+            if *o != sd.name {
+                continue;
+            }
+        }
+        // baseline: the unmutated text, and the unmutated tree re-embedded by the mutation machinery,
+        // must both be accepted - otherwise every "Err" below would be an artefact
+        let tree: J = serde_json::from_str(&sd.text).map_err(|e| e.to_string())?;
+        let reembedded = serde_json::to_string(&tree).map_err(|e| e.to_string())?;
+        let o0 = check_text(sd.target, &sd.text, &sd.text, None);
+        if o0.class != "ok" {
+            // the unmutated serialization of a seed is itself not handled correctly: a round-trip violation
+            let v = o0.viol.clone().unwrap_or(Viol {
+                sig: format!("C12:{}:seed-rejected", sd.target),
+                what: "from_str rejects the unmutated serialization of a seed".into(),
+            });
+            if v.sig.contains(":panic:") {
+                r.count("deserialization_panics", 1);
+            }
+            r.violation(
+                &v.sig,
+                &format!("{} [unmutated seed {}]", v.what, sd.name),
+                json!({"half": "B", "target": sd.target, "seed": sd.name, "mutation": "none", "seed_text": sd.text, "text": sd.text, "sandboxed": false, "field": ""}),
+            );
+            r.count("seeds_skipped_baseline_violation", 1);
+            continue;
+        }
+        r.count("baseline_accepted", 1);
+        let o1 = check_text(sd.target, &reembedded, &sd.text, None);
+        if o1.class != "ok" {
+            return Err(format!("re-embedded baseline of seed {}:{} is not accepted ({:?})", sd.target, sd.name, o1.viol));
+        }
+        r.count("baseline_accepted", 1);
+        dbg(&format!("B seed {}:{} len {}", sd.target, sd.name, sd.text.len()));
+        let cases = all_cases(&sd.text, &tree, sd.small)?;
+        dbg(&format!("  {} cases", cases.len()));
+        let seed_ctx: Option<String> = if sd.target == "Context" { Some(sd.text.clone()) } else { None };
+        // parallel over a partition of the enumeration; every worker has its own copy of the seed context;
+        // risky cases go to the memory-limited child process
+        let safe_idx: Vec<usize> = (0..cases.len()).filter(|i| !cases[*i].risky).collect();
+        let risky_idx: Vec<usize> = (0..cases.len()).filter(|i| cases[*i].risky).collect();
+        let chunk = 256;
+        let risky_texts: Vec<String> = risky_idx.iter().map(|i| cases[*i].text(&sd.text, &tree)).collect();
+        let risky_fields: Vec<String> = risky_idx.iter().map(|i| cases[*i].field.clone()).collect();
+        let (safe_out, sandbox_res) = rayon::join(
+            || -> Vec<Vec<(Outcome, u64)>> {
+                safe_idx
+                    .par_chunks(chunk)
+                    .map(|ix| {
+                        let sc: Option<Context> = seed_ctx.as_ref().and_then(|t| serde_json::from_str(t).ok());
+                        ix.iter()
+                            .map(|i| {
+                                let c = &cases[*i];
+                                let text = c.text(&sd.text, &tree);
+                                if std::env::var("C12_TRACE").is_ok() {
+                                    eprintln!("TRACE {} {}", c.desc, text.len());
+                                }
+                                (check_text(sd.target, &text, &sd.text, sc.as_ref()), crate::common::hash_str(&text))
+                            })
+                            .collect()
+                    })
+                    .collect()
+            },
+            || sandbox_run(sd.target, &sd.text, &risky_texts, &risky_fields, &format!("{}-{}", sd.target, sd.name)),
+        );
+        let (risky_out, children) = sandbox_res?;
+        r.count("sandboxed_cases", risky_idx.len() as u64);
+        r.count("sandbox_children", children);
+        let mut merged: Vec<Option<(Outcome, u64)>> = vec![None; cases.len()];
+        for (i, o) in safe_idx.iter().zip(safe_out.into_iter().flatten()) {
+            merged[*i] = Some(o);
+        }
+        for (k, (i, o)) in risky_idx.iter().zip(risky_out.into_iter()).enumerate() {
+            if o.viol.as_ref().map(|v| v.sig.contains(":abort:")).unwrap_or(false) {
+                r.count("sandbox_crashes", 1);
+            }
+            merged[*i] = Some((o, crate::common::hash_str(&risky_texts[k])));
+        }
+        let outcomes: Vec<(Outcome, u64)> = merged.into_iter().map(|o| o.unwrap()).collect();
+        let mut per_class: BTreeMap<String, [u64; 3]> = BTreeMap::new();
+        for (case, (o, text_hash)) in cases.iter().zip(outcomes.iter()) {
+            r.count("evaluations", 1);
+            r.count(&format!("malformed_{}_cases", sd.target), 1);
+            let e = per_class.entry(case.class.clone()).or_insert([0; 3]);
+            match o.class {
+                "err" => {
+                    e[0] += 1;
+                    r.count("rejected_with_error", 1);
+                }
+                "ok" => {
+                    e[1] += 1;
+                    r.count("accepted_wellformed", 1);
+                    if o.accepted_differs {
+                        r.count("accepted_wellformed_differs_from_seed", 1);
+                        r.distinct(text_hash ^ crate::common::hash_str(sd.target));
+                    }
+                }
+                _ => {
+                    e[2] += 1;
+                }
+            }
+            if o.class != "ok" {
+                r.distinct(text_hash ^ crate::common::hash_str(sd.target));
+            }
+            if o.evaluated {
+                r.count("accepted_evaluated", 1);
+            }
+            if o.eval_ok {
+                r.count("accepted_evaluated_ok", 1);
+            }
+            if o.eval_skipped_large {
+                r.count("accepted_eval_skipped_large", 1);
+            }
+            if let Some(v) = &o.viol {
+                if v.sig.contains(":panic:") {
+                    r.count("deserialization_panics", 1);
+                }
+                let rec = if seen_sigs.insert(v.sig.clone()) {
+                    json!({"half": "B", "target": sd.target, "seed": sd.name, "mutation": case.desc,
+                           "seed_text": sd.text, "text": case.text(&sd.text, &tree), "sandboxed": case.risky, "field": case.field})
+                } else {
+                    J::Null // only the first case per signature is kept by the report
+                };
+                r.violation(&v.sig, &v.what, rec);
+            }
+            if r.want_sample() && case.class.starts_with("tree:number") {
+                r.sample(json!({"half": "B", "target": sd.target, "seed": sd.name, "mutation": case.desc, "outcome": o.class}));
+            }
+        }
+        let pc: serde_json::Map<String, J> = per_class
+            .into_iter()
+            .map(|(k, v)| (k, json!({"err": v[0], "ok": v[1], "violation": v[2]})))
+            .collect();
+        r.extra(&format!("B:{}:{}", sd.target, sd.name), json!({"text_len": sd.text.len(), "cases": cases.len(), "by_mutation_class": pc}));
+    }
+    Ok(())
+}
+
+// ------------------------------------------------------------------------------------------------
+// half A
+
+#[derive(Default)]
+struct RtStats {
+    built: bool,
+    build_error: Option<String>,
+    nodes: u64,
+    graphs: u64,
+    text_len: u64,
+    evals: u64,
+    evals_ok: u64,
+    evaluable: bool,
+    ops: Vec<String>,
+    viols: Vec<Viol>,
+}
+
+fn op_names(c: &Context) -> Vec<String> {
+    let mut v = vec![];
+    for g in c.get_graphs() {
+        for n in g.get_nodes() {
+            let s = format!("{:?}", n.get_operation());
+            let name: String = s.split(|ch| ch == '(' || ch == ' ' || ch == '{').next().unwrap_or("").to_string();
+            if !v.contains(&name) {
+                v.push(name);
+            }
+        }
+    }
+    v
+}
+
+/// operation tag of the first node whose serialization differs between the two texts
+fn first_differing_operation(s1: &str, s2: &str) -> String {
+    let (a, b) = match (inner_tree(s1), inner_tree(s2)) {
+        (Some(a), Some(b)) => (a, b),
+        _ => return "?".into(),
+    };
+    if a == b {
+        // the JSON documents are equal as trees: only the order of the keys of some map differs
+        return "map-key-order".into();
+    }
+    let key = mutate::first_diff_key(&a, &b);
+    if key != "graphs" {
+        return key;
+    }
+    let (ga, gb) = (a["graphs"].as_array().cloned().unwrap_or_default(), b["graphs"].as_array().cloned().unwrap_or_default());
+    for (x, y) in ga.iter().zip(gb.iter()) {
+        let (na, nb) = (x["nodes"].as_array().cloned().unwrap_or_default(), y["nodes"].as_array().cloned().unwrap_or_default());
+        for (p, q) in na.iter().zip(nb.iter()) {
+            if p != q {
+                return match &p["operation"] {
+                    J::String(s) => s.clone(),
+                    J::Object(m) => m.keys().next().cloned().unwrap_or_default(),
+                    _ => "?".into(),
+                };
+            }
+        }
+    }
+    "graphs".into()
+}
+
+const RELOADS: usize = 4;
+
+fn check_roundtrip(ctx: &Context, seed: u64, extra_inputs: usize) -> RtStats {
+    let mut st = RtStats { built: true, ..Default::default() };
+    let fail = |st: &mut RtStats, sig: String, what: String| {
+        if !st.viols.iter().any(|v| v.sig == sig) {
+            st.viols.push(Viol { sig, what });
+        }
+    };
+    st.graphs = ctx.get_num_graphs();
+    st.nodes = ctx.get_graphs().iter().map(|g| g.get_num_nodes()).sum();
+    st.ops = op_names(ctx);
+    let s1 = match catch(|| serde_json::to_string(ctx)) {
+        Ok(Ok(s)) => s,
+        Ok(Err(e)) => {
+            fail(&mut st, "C12:roundtrip:serialize-error".into(), format!("to_string fails: {}", e));
+            return st;
+        }
+        Err(p) => {
+            fail(&mut st, panic_sig("roundtrip", "serialize-panic", "", &p), format!("to_string panics: {}", first_line(&p)));
+            return st;
+        }
+    };
+    st.text_len = s1.len() as u64;
+    match catch(|| serde_json::to_string(ctx)) {
+        Ok(Ok(s2)) if s2 == s1 => {}
+        _ => fail(&mut st, "C12:roundtrip:text-not-deterministic".into(), "serializing the same context twice gives different texts".into()),
+    }
+    let mut reloaded: Vec<Context> = vec![];
+    for k in 0..RELOADS {
+        match catch(|| serde_json::from_str::<Context>(&s1)) {
+            Ok(Ok(c2)) => reloaded.push(c2),
+            Ok(Err(e)) => {
+                fail(
+                    &mut st,
+                    format!("C12:roundtrip:rejected:{}", stable_msg(&e.to_string())),
+                    format!("from_str rejects the serialization of a context the library produced: {}", first_line(&e.to_string())),
+                );
+                return st;
+            }
+            Err(p) => {
+                fail(&mut st, panic_sig("roundtrip", "deserialize-panic", "", &p), format!("from_str panics on the serialization of a context the library produced: {}", first_line(&p)));
+                return st;
+            }
+        }
+        let c2 = &reloaded[k];
+        let r = catch(|| {
+            let mut v: Vec<(String, String)> = vec![];
+            if !contexts_deep_equal(ctx, c2) || !ctx.deep_equal(c2.clone()) {
+                v.push(("C12:roundtrip:not-deep-equal".into(), "the reloaded context is not deep_equal to the original".into()));
+            }
+            if let Err((cat, d)) = wf::same_structure(ctx, c2) {
+                v.push((format!("C12:roundtrip:structure-differs:{}", cat), format!("the reloaded context differs from the original: {}", d)));
+            }
+            match serde_json::to_string(c2) {
+                Ok(s3) => {
+                    if s3 != s1 {
+                        let op = first_differing_operation(&s1, &s3);
+                        v.push((
+                            format!("C12:roundtrip:reserialized-text-differs:{}", op),
+                            format!("serializing the reloaded context does not reproduce the original text (first difference in {})", op),
+                        ));
+                    }
+                    if let Err(why) = wf::well_formed(c2, &s3) {
+                        v.push((format!("C12:roundtrip:reloaded-ill-formed:{}", stable_msg(&why)), format!("the reloaded context is ill-formed: {}", why)));
+                    }
+                }
+                Err(e) => v.push(("C12:roundtrip:reserialize-error".into(), e.to_string())),
+            }
+            v
+        });
+        match r {
+            Ok(v) => {
+                for (s, w) in v {
+                    fail(&mut st, s, w);
+                }
+            }
+            Err(p) => fail(&mut st, panic_sig("roundtrip", "compare-panic", "", &p), format!("comparing original and reloaded context panics: {}", first_line(&p))),
+        }
+    }
+    // same evaluation result with the same evaluator seed
+    if ctx.check_finalized().is_ok() && ctx.get_main_graph().is_ok() {
+        if let Some(types) = wf::main_input_types(ctx) {
+            st.evaluable = true;
+            let c2 = &reloaded[0];
+            for (k, ins) in wf::input_alphabet(&types, seed, extra_inputs).iter().enumerate() {
+                let es = seed ^ (k as u64 + 1);
+                let a = wf::evaluate(ctx, ins, es);
+                let b = wf::evaluate(c2, ins, es);
+                st.evals += 1;
+                if a.is_ok() {
+                    st.evals_ok += 1;
+                }
+                if a != b {
+                    let show = |x: &Result<Value, String>| match x {
+                        Ok(_) => "a value".to_string(),
+                        Err(e) => e.clone(),
+                    };
+                    fail(
+                        &mut st,
+                        "C12:roundtrip:evaluation-differs".into(),
+                        format!("input pattern {}: original gives {}, reloaded gives {} (same evaluator seed)", k, show(&a), show(&b)),
+                    );
+                }
+            }
+        }
+    }
+    st
+}
+
+/// round trip of plain values and typed values (every scalar type, extremes, nesting)
+fn run_half_a_values(r: &Report) {
+    use crate::vals;
+    use ciphercore_base::data_types::{array_type, scalar_type};
+    let mut values: Vec<(String, Value)> = seeds::value_seeds().into_iter().map(|(n, v)| (n.to_string(), v)).collect();
+    let mut typed: Vec<(String, TypedValue)> = seeds::typed_value_seeds().into_iter().map(|(n, v)| (n.to_string(), v)).collect();
+    for st in vals::ALL_ST.iter() {
+        let m = vals::st_mask(st);
+        let top = if vals::st_bits(st) == 1 { 1 } else { 1u128 << (vals::st_bits(st) - 1) };
+        let elems = [0u128, 1, m, top, top.wrapping_sub(1) & m, m - (m >> 1 > 0) as u128];
+        for (k, e) in elems.iter().enumerate() {
+            let v = vals::arr_value(&[*e], st);
+            values.push((format!("{:?}:{}", st, k), v.clone()));
+            if let Ok(tv) = TypedValue::new(scalar_type(*st), v) {
+                typed.push((format!("scalar:{:?}:{}", st, k), tv));
+            }
+        }
+        let v = vals::arr_value(&elems, st);
+        if let Ok(tv) = TypedValue::new(array_type(vec![2, 3], *st), v.clone()) {
+            typed.push((format!("array2x3:{:?}", st), tv));
+        }
+        if let Ok(tv) = TypedValue::new(array_type(vec![6], *st), v) {
+            typed.push((format!("array6:{:?}", st), tv));
+        }
+    }
+    for (n, v) in values.iter() {
+        r.count("evaluations", 1);
+        r.count("roundtrip_values", 1);
+        r.distinct_str(&format!("AV|{}", n));
+        let res = catch(|| -> Result<(), String> {
+            let s1 = serde_json::to_string(v).map_err(|e| e.to_string())?;
+            if serde_json::to_string(v).map_err(|e| e.to_string())? != s1 {
+                return Err("text-not-deterministic".into());
+            }
+            let v2: Value = serde_json::from_str(&s1).map_err(|e| format!("rejected: {}", e))?;
+            if v2 != *v {
+                return Err("reloaded value differs".into());
+            }
+            if serde_json::to_string(&v2).map_err(|e| e.to_string())? != s1 {
+                return Err("reserialized-text-differs".into());
+            }
+            Ok(())
+        });
+        let why = match res {
+            Ok(Ok(())) => continue,
+            Ok(Err(w)) => w,
+            Err(p) => format!("panic: {}", first_line(&p)),
+        };
+        r.violation(&format!("C12:roundtrip:Value:{}", stable_msg(&why)), &format!("Value {} does not round-trip: {}", n, why), json!({"half": "AV", "kind": "Value", "name": n}));
+    }
+    for (n, tv) in typed.iter() {
+        r.count("evaluations", 1);
+        r.count("roundtrip_typed_values", 1);
+        r.distinct_str(&format!("ATV|{}", n));
+        let res = catch(|| -> Result<(), String> {
+            let s1 = serde_json::to_string(tv).map_err(|e| format!("cannot be serialized: {}", e))?;
+            if serde_json::to_string(tv).map_err(|e| e.to_string())? != s1 {
+                return Err("text-not-deterministic".into());
+            }
+            let t2: TypedValue = serde_json::from_str(&s1).map_err(|e| format!("rejected: {}", e))?;
+            if t2.t != tv.t {
+                return Err("reloaded type differs".into());
+            }
+            if t2.value != tv.value {
+                return Err("reloaded value differs".into());
+            }
+            if serde_json::to_string(&t2).map_err(|e| e.to_string())? != s1 {
+                return Err("reserialized-text-differs".into());
+            }
+            Ok(())
+        });
+        let why = match res {
+            Ok(Ok(())) => continue,
+            Ok(Err(w)) => w,
+            Err(p) => format!("panic: {}", first_line(&p)),
+        };
+        r.violation(&format!("C12:roundtrip:TypedValue:{}", stable_msg(&why)), &format!("TypedValue {} does not round-trip: {}", n, why), json!({"half": "AV", "kind": "TypedValue", "name": n}));
+    }
+}
+
+fn run_half_a(r: &Report) {
+    run_half_a_values(r);
+    let entries = corpus::corpus(r.tier.thorough());
+    let seed = r.seed;
+    let stats: Vec<RtStats> = entries
+        .par_iter()
+        .map(|e| match catch(|| (e.build)()) {
+            Ok(Ok(c)) => {
+                dbg(&format!("A built {}", e.name));
+                let st = check_roundtrip(&c, seed, 1);
+                dbg(&format!("A done {} nodes {}", e.name, st.nodes));
+                st
+            }
+            Ok(Err(m)) => RtStats { build_error: Some(m), ..Default::default() },
+            Err(p) => RtStats { build_error: Some(format!("panic: {}", first_line(&p))), ..Default::default() },
+        })
+        .collect();
+    let mut ops: Vec<String> = vec![];
+    let mut not_built: Vec<J> = vec![];
+    let mut by_kind: BTreeMap<&'static str, [u64; 3]> = BTreeMap::new();
+    let mut max_nodes = 0;
+    for (e, st) in entries.iter().zip(stats.iter()) {
+        r.count("corpus_entries", 1);
+        if !st.built {
+            r.count("corpus_entries_not_built", 1);
+            not_built.push(json!({"name": e.name, "why": st.build_error}));
+            continue;
+        }
+        r.count("evaluations", 1);
+        r.count("roundtrip_contexts", 1);
+        r.count(&format!("roundtrip_{}", e.kind), 1);
+        r.count("roundtrip_nodes_total", st.nodes);
+        r.count("roundtrip_evaluations_compared", st.evals);
+        r.count("extra_seeded_cases", if st.evals > 0 { 1 } else { 0 });
+        r.count("roundtrip_evaluations_ok", st.evals_ok);
+        let k = by_kind.entry(e.kind).or_insert([0; 3]);
+        k[0] += 1;
+        k[1] += st.nodes;
+        k[2] = k[2].max(st.nodes);
+        max_nodes = max_nodes.max(st.nodes);
+        r.distinct_str(&format!("A|{}", e.name));
+        for o in st.ops.iter() {
+            if !ops.contains(o) {
+                ops.push(o.clone());
+            }
+        }
+        for v in st.viols.iter() {
+            r.violation(&v.sig, &format!("{} [corpus entry {}]", v.what, e.name), json!({"half": "A", "name": e.name}));
+        }
+        if r.want_sample() && (e.kind == "compiled" || e.kind == "instantiated") {
+            r.sample(json!({"half": "A", "name": e.name, "graphs": st.graphs, "nodes": st.nodes, "text_len": st.text_len,
+                            "evaluations_compared": st.evals, "violations": st.viols.len()}));
+        }
+    }
+    ops.sort();
+    r.count("operation_variants_in_corpus", ops.len() as u64);
+    r.extra("A:operation_variants", json!(ops));
+    r.extra("A:not_built", json!(not_built));
+    r.extra("A:largest_context_nodes", json!(max_nodes));
+    let bk: serde_json::Map<String, J> = by_kind
+        .into_iter()
+        .map(|(k, v)| (k.to_string(), json!({"contexts": v[0], "nodes_total": v[1], "nodes_max": v[2]})))
+        .collect();
+    r.extra("A:by_kind", J::Object(bk));
+}
+
+fn dbg(msg: &str) {
+    if std::env::var("C12_DEBUG").is_ok() {
+        eprintln!("[c12 {:?}] {}", std::time::SystemTime::now().duration_since(std::time::UNIX_EPOCH).map(|d| d.as_secs() % 100000).unwrap_or(0), msg);
+    }
+}
+
+pub fn run(r: &Report) -> i32 {
+    let only = std::env::var("C12_HALF").unwrap_or_default();
+    if only != "B" {
+        run_half_a(r);
+    }
+    if only != "A" {
+        if let Err(e) = run_half_b(r) {
+            println!("MACHINERY-ERROR property=C12 {}", e);
+            return 2;
+        }
+    }
+    let a_keys = ["roundtrip_values", "roundtrip_typed_values", "roundtrip_contexts", "roundtrip_compiled", "roundtrip_instantiated", "roundtrip_inlined", "roundtrip_optimized", "roundtrip_evaluations_ok"];
+    let b_keys = [
+        "malformed_Context_cases",
+        "malformed_Value_cases",
+        "malformed_TypedValue_cases",
+        "rejected_with_error",
+        "accepted_wellformed_differs_from_seed",
+        "accepted_evaluated_ok",
+        "sandboxed_cases",
+    ];
+    let mut nonvac: Vec<&str> = vec![];
+    if only != "B" {
+        nonvac.extend(a_keys.iter());
+    }
+    if only != "A" {
+        nonvac.extend(b_keys.iter());
+    }
+    r.finish(
+        "fault_enumeration",
+        "A: every corpus context (plain/custom/instantiated/inlined/optimized/compiled) is one case, all distinct by name. \
+         B: per seed text every prefix, every 1-byte deletion, every 1-byte substitution by a different symbol of the 14-symbol alphabet, \
+         every structural mutation of the JSON tree (envelope, payload, nested constant envelopes; numbers -> {0,1,2^31,2^64-1,-1,1.5,x-1,x+1,0..=n+1}, \
+         arrays drop/dup/swap/empty, strings unknown/empty, keys removed/renamed/added, bool flip, null->id, wrong type x6); \
+         distinct = distinct mutated texts that are rejected or accepted as a context different from the seed",
+        true,
+        &[
+            "evaluation of accepted mutants is attempted only if all node types together hold <= 2^16 bits (others are counted as accepted_eval_skipped_large)",
+            "single mutations only (no pairs)",
+            "panic sites are identified by message + source file + mutated payload table, not by line number",
+        ],
+        &nonvac,
+    )
+}
+
+pub fn replay(r: &Report, rec: &serde_json::Value) -> i32 {
+    let case = &rec["case"];
+    let want = rec["signature"].as_str().unwrap_or("");
+    if case["half"].as_str() == Some("AV") {
+        // the value corpus is tiny: re-run all of it and look for the recorded signature
+        let rr = Report::new("C12", r.tier, r.seed);
+        run_half_a_values(&rr);
+        println!("replay C12 value round trip of {} {}", case["kind"], case["name"]);
+        println!("expected: to_string deterministic, from_str Ok and equal, identical re-serialization");
+        let n = rr.get("violating_cases");
+        println!("observed: {} value(s) of the corpus do not round-trip", n);
+        return if n > 0 { 1 } else { 0 };
+    }
+    if case["half"].as_str() == Some("A") {
+        let name = case["name"].as_str().unwrap_or("");
+        let entries = corpus::corpus(true);
+        let e = match entries.iter().find(|e| e.name == name) {
+            Some(e) => e,
+            None => {
+                println!("replay: corpus entry {} not found", name);
+                return 2;
+            }
+        };
+        let c = match catch(|| (e.build)()) {
+            Ok(Ok(c)) => c,
+            other => {
+                println!("replay: corpus entry {} cannot be built: {:?}", name, other.map(|x| x.err()));
+                return 2;
+            }
+        };
+        let st = check_roundtrip(&c, r.seed, 1);
+        println!("replay C12 half A, corpus entry {} ({} graphs, {} nodes)", name, st.graphs, st.nodes);
+        println!("expected: identical text on repeated serialization, Ok reload, deep equality, identical re-serialization, identical evaluation");
+        if st.viols.is_empty() {
+            println!("observed: all round-trip checks hold");
+        }
+        for v in st.viols.iter() {
+            println!("observed: [{}] {}", v.sig, v.what);
+        }
+        return if st.viols.iter().any(|v| v.sig == want) || (want.is_empty() && !st.viols.is_empty()) { 1 } else { 0 };
+    }
+    if case["half"].as_str() == Some("sandbox") {
+        return sandbox_child(case);
+    }
+    let target = case["target"].as_str().unwrap_or("Context");
+    let text = case["text"].as_str().unwrap_or("");
+    let seed_text = case["seed_text"].as_str().unwrap_or("");
+    let o = if case["sandboxed"].as_bool() == Some(true) {
+        match sandbox_run(target, seed_text, &[text.to_string()], &[case["field"].as_str().unwrap_or("").to_string()], "replay") {
+            Ok((mut v, _)) => v.remove(0),
+            Err(e) => {
+                println!("replay: sandbox failed: {}", e);
+                return 2;
+            }
+        }
+    } else {
+        check_text(target, text, seed_text, None)
+    };
+    println!("replay C12 half B, target {}, seed {}, mutation {}", target, case["seed"], case["mutation"]);
+    println!("input text: {}", text);
+    println!("expected: from_str returns Err, or Ok with a well-formed, round-tripping, evaluable {}", target);
+    match &o.viol {
+        Some(v) => {
+            println!("observed: [{}] {}", v.sig, v.what);
+            if want.is_empty() || v.sig == want {
+                1
+            } else {
+                println!("(a different violation than the recorded {})", want);
+                1
+            }
+        }
+        None => {
+            println!("observed: {}", if o.class == "err" { "Err (rejected cleanly)" } else { "Ok, well-formed" });
+            0
+        }
+    }
 }
